@@ -9,7 +9,8 @@
 //!   * unpriced market events: a liquidation, an L1 with both sides empty (newer / older)
 //! ("newer/equal/older" are relative to the greatest timestamp - market event or fill - the instrument
 //! has seen, so stale and duplicate timestamps are reachable in every state; the first market event is
-//! always "newer"; a fill is always stamped newer than everything before it on its instrument).
+//! always "newer"; a fill is stamped newer than everything before it on its instrument, except in the
+//! `fill-times` configuration below).
 //!
 //! Oracle (from the statement). est(x) = side * qty * (x - entry average) - (qty / qty_max) * fees_enter
 //! is recomputed here from the position's own fields ("price move on the open quantity minus pro-rata
@@ -24,6 +25,21 @@
 //!       is silent => "still an allowed value" and est(current price) are both accepted
 //!   (d) an event on another instrument leaves pnl_unrealised of i unchanged ("until newer market data
 //!       arrives" - data of another instrument is not data for i)
+//!   (e) the pro-rata basis of the exit-fee estimate: the documented estimate charges the entry fees
+//!       pro rata of open quantity / MAXIMUM quantity the position has reached ("fees_enter was the fee
+//!       cost to enter a position of quantity_abs_max"). est() reads quantity_abs_max from the position;
+//!       after every fill that field is compared with the maximum of |net filled quantity| over the
+//!       position's life (reference, from the fills only) and a difference that changes the estimate
+//!       (non-zero entry fees) is reported under its own signature.
+//! Further configurations (hardening rounds):
+//!   * `trio`: all THREE instruments are driven (a0 and a1 share exchange 0, a0 and b0 share the
+//!     underlying btc/usdt on different exchanges, a0 has index 0), narrow alphabet, so rule (d) also
+//!     covers "another instrument of the same exchange" and "the same market on another venue".
+//!   * `fill-times`: fills are also stamped EQUAL to / OLDER than the greatest timestamp the instrument
+//!     has seen (fills reported out of order, or after market data that is already newer). Sentence 2
+//!     still applies ("after a fill ... the estimate at the fill price"); because market data newer than
+//!     such a fill may already have arrived, the estimate at the instrument's current price is accepted
+//!     as well - but never a value left over from before the fill (computed for another quantity).
 //! The monitor keeps, per instrument, the set of allowed sources of the estimate (a price, "0 at open",
 //! or - after a reported violation - the observed value, so one defect is reported where it happens and
 //! does not cascade). Signatures: rule + abstract cause (left-at-previous-value,
@@ -90,10 +106,26 @@ pub enum T {
     Older,
 }
 
+fn t_newer() -> T {
+    T::Newer
+}
+fn is_newer(t: &T) -> bool {
+    *t == T::Newer
+}
+
 #[derive(Debug, Clone, Copy, PartialEq, Eq, Hash, Serialize, Deserialize)]
 pub enum Sym {
     /// fill on driven instrument `i` (0/1): indices into QTY / FILL_PRICE / FEE
-    Fill { i: u8, buy: bool, q: u8, p: u8, f: u8 },
+    /// `t`: time class of the fill relative to the greatest timestamp seen (default: newer)
+    Fill {
+        i: u8,
+        buy: bool,
+        q: u8,
+        p: u8,
+        f: u8,
+        #[serde(default = "t_newer", skip_serializing_if = "is_newer")]
+        t: T,
+    },
     /// public trade
     Trade { i: u8, t: T, p: u8 },
     /// two-sided top of book
@@ -148,12 +180,14 @@ struct Mon {
     allowed: Vec<Src>,
     /// greatest event time (market event or fill; seconds after t0) seen for this instrument
     max_t: Option<i64>,
+    /// greatest |net| the open position has reached since it was opened (reference for rule (e))
+    qmax: Decimal,
 }
 
 #[derive(Clone)]
 pub struct St {
     eng: Eng,
-    mon: [Mon; 2],
+    mon: Vec<Mon>,
     dead: bool,
 }
 
@@ -165,6 +199,7 @@ pub struct Counters {
     other_instrument_checked: AtomicU64,
     refreshed_to_new_value: AtomicU64,
     open_fill_zero_where_estimate_nonzero: AtomicU64,
+    exit_fee_basis_checked: AtomicU64,
 }
 
 /// Alphabet width: the narrower, the deeper the bound.
@@ -173,13 +208,17 @@ pub enum Width {
     Full,
     Medium,
     Narrow,
+    /// narrow alphabet, all three instruments driven
+    Trio,
+    /// fills stamped newer / equal / older
+    FillTimes,
 }
 
 pub struct M {
     width: Width,
     instruments: IndexedInstruments,
     /// driven instruments: (instrument index, exchange id, exchange index)
-    driven: [(InstrumentIndex, ExchangeId, ExchangeIndex); 2],
+    driven: Vec<(InstrumentIndex, ExchangeId, ExchangeIndex)>,
     pub n: Counters,
 }
 
@@ -199,7 +238,11 @@ impl M {
             let x = i.value.exchange.key;
             (i.key, instruments.exchanges()[x.index()].value, x)
         };
-        let driven = [find("a1"), find("b0")];
+        let driven = if width == Width::Trio {
+            vec![find("a0"), find("a1"), find("b0")]
+        } else {
+            vec![find("a1"), find("b0")]
+        };
         Self { width, instruments, driven, n: Counters::default() }
     }
     pub fn label(&self) -> &'static str {
@@ -207,7 +250,18 @@ impl M {
             Width::Full => "full",
             Width::Medium => "medium",
             Width::Narrow => "narrow",
+            Width::Trio => "trio",
+            Width::FillTimes => "fill-times",
         }
+    }
+    pub fn from_label(label: &str) -> Self {
+        Self::new(match label {
+            "narrow" => Width::Narrow,
+            "medium" => Width::Medium,
+            "trio" => Width::Trio,
+            "fill-times" => Width::FillTimes,
+            _ => Width::Full,
+        })
     }
 
     fn position<'a>(&self, eng: &'a Eng, i: usize) -> Option<&'a Position<QuoteAsset, InstrumentIndex>> {
@@ -262,7 +316,7 @@ impl SeqModel for M {
 
     fn init(&self) -> St {
         let (engine, _links) = build_engine(&self.instruments, TradingState::Disabled, &[]);
-        St { eng: Eng(engine), mon: Default::default(), dead: false }
+        St { eng: Eng(engine), mon: vec![Mon::default(); self.driven.len()], dead: false }
     }
 
     fn alphabet(&self, s: &St, _hist: &[Sym]) -> Vec<Sym> {
@@ -270,13 +324,30 @@ impl SeqModel for M {
             return vec![];
         }
         let mut v = Vec::new();
-        for i in 0..2u8 {
+        for i in 0..self.driven.len() as u8 {
             let first = s.mon[i as usize].max_t.is_none();
-            if self.width == Width::Narrow {
+            if self.width == Width::FillTimes {
+                // fills qty{1,2} @110 fee 0.3 x time{newer, equal, older}, trade @120 {newer, older}, L1 book 1 newer
+                let times: &[T] = if first { &[T::Newer] } else { &[T::Newer, T::Equal, T::Older] };
+                for &t in times {
+                    for q in 0..2u8 {
+                        for buy in [true, false] {
+                            v.push(Sym::Fill { i, buy, q, p: 1, f: 1, t });
+                        }
+                    }
+                }
+                v.push(Sym::Trade { i, t: T::Newer, p: 1 });
+                if !first {
+                    v.push(Sym::Trade { i, t: T::Older, p: 1 });
+                }
+                v.push(Sym::L1 { i, t: T::Newer, b: 1 });
+                continue;
+            }
+            if self.width == Width::Narrow || self.width == Width::Trio {
                 // fills qty{1,2} @100 fee 0.3, trade @120 {newer, older}, L1 book 1 newer, empty L1 newer
                 for q in 0..2u8 {
                     for buy in [true, false] {
-                        v.push(Sym::Fill { i, buy, q, p: 0, f: 1 });
+                        v.push(Sym::Fill { i, buy, q, p: 0, f: 1, t: T::Newer });
                     }
                 }
                 v.push(Sym::Trade { i, t: T::Newer, p: 1 });
@@ -293,7 +364,7 @@ impl SeqModel for M {
                 for q in 0..2u8 {
                     for p in 0..2u8 {
                         for buy in [true, false] {
-                            v.push(Sym::Fill { i, buy, q, p, f: 1 });
+                            v.push(Sym::Fill { i, buy, q, p, f: 1, t: T::Newer });
                         }
                     }
                 }
@@ -313,7 +384,7 @@ impl SeqModel for M {
                 for q in 0..2u8 {
                     for p in 0..2u8 {
                         for buy in [true, false] {
-                            v.push(Sym::Fill { i, buy, q, p, f });
+                            v.push(Sym::Fill { i, buy, q, p, f, t: T::Newer });
                         }
                     }
                 }
@@ -339,17 +410,24 @@ impl SeqModel for M {
 
     fn step(&self, s: &mut St, sym: &Sym, hist: &[Sym], out: &mut Vec<Viol>) {
         let i = sym.instrument();
-        let j = 1 - i;
         let n = hist.len();
+        // the fill is stamped equal to / older than something the instrument has already seen
+        let mut fill_not_newest = false;
 
         // ---- build the event; classify it from the reference point of view
         // priced: Some(event's own price) for trades / two-sided books
         let (event, fill, priced, definitely_new, kind): (Event, Option<(Decimal, Decimal, bool)>, Option<Decimal>, bool, &str) = match *sym {
-            Sym::Fill { buy, q, p, f, .. } => {
-                // a fill is stamped newer than everything the instrument has seen (so a later "newer"
-                // market event is also newer than the fill)
-                let fill_time = s.mon[i].max_t.map_or(1, |m| m + 1);
-                s.mon[i].max_t = Some(fill_time);
+            Sym::Fill { buy, q, p, f, t, .. } => {
+                // by default a fill is stamped newer than everything the instrument has seen (so a later
+                // "newer" market event is also newer than the fill); `fill-times` also stamps it equal / older
+                let fill_time = match (s.mon[i].max_t, t) {
+                    (None, _) => 1,
+                    (Some(m), T::Newer) => m + 1,
+                    (Some(m), T::Equal) => m,
+                    (Some(m), T::Older) => m - 1,
+                };
+                fill_not_newest = s.mon[i].max_t.is_some_and(|m| fill_time <= m);
+                s.mon[i].max_t = Some(s.mon[i].max_t.map_or(fill_time, |m| m.max(fill_time)));
                 let trade = Trade {
                     id: TradeId::new(format!("f{n}")),
                     order_id: OrderId::new("o"),
@@ -406,7 +484,8 @@ impl SeqModel for M {
 
         // ---- observations before
         let before_i = self.position(&s.eng, i).map(|p| p.pnl_unrealised);
-        let before_j = self.position(&s.eng, j).map(|p| p.pnl_unrealised);
+        let before_others: Vec<Option<Decimal>> =
+            (0..self.driven.len()).map(|j| self.position(&s.eng, j).map(|p| p.pnl_unrealised)).collect();
         let price_before = self.price(&s.eng, i);
 
         // ---- the real engine
@@ -422,14 +501,20 @@ impl SeqModel for M {
         }
 
         // ---- (d) the other instrument's estimate is untouched
-        if let (Some(b), Some(p)) = (before_j, self.position(&s.eng, j)) {
-            self.n.other_instrument_checked.fetch_add(1, Ordering::Relaxed);
-            if p.pnl_unrealised != b {
-                out.push((
-                    format!("C15/other-instrument-estimate-untouched/{}", if fill.is_some() { "fill" } else { "market-event" }),
-                    format!("{sym:?} on driven instrument {i} changed pnl_unrealised of instrument {j} from {b} to {}", p.pnl_unrealised),
-                ));
-                s.mon[j].allowed = vec![Src::Observed(p.pnl_unrealised)];
+        for j in (0..self.driven.len()).filter(|j| *j != i) {
+            if let (Some(b), Some(p)) = (before_others[j], self.position(&s.eng, j)) {
+                self.n.other_instrument_checked.fetch_add(1, Ordering::Relaxed);
+                if p.pnl_unrealised != b {
+                    let relation = if self.driven[i].2 == self.driven[j].2 { "same exchange" } else { "another exchange" };
+                    out.push((
+                        format!("C15/other-instrument-estimate-untouched/{}", if fill.is_some() { "fill" } else { "market-event" }),
+                        format!(
+                            "{sym:?} on instrument {:?} changed pnl_unrealised of instrument {:?} ({relation}) from {b} to {}",
+                            self.driven[i].0, self.driven[j].0, p.pnl_unrealised
+                        ),
+                    ));
+                    s.mon[j].allowed = vec![Src::Observed(p.pnl_unrealised)];
+                }
             }
         }
 
@@ -457,7 +542,32 @@ impl SeqModel for M {
             };
             match pos {
                 Some(p) if !net1.is_zero() => {
+                    // ---- rule (e): the pro-rata basis is the maximum size the position has reached
+                    let qmax_ref = if opening { net1.abs() } else { mon.qmax.max(net1.abs()) };
+                    mon.qmax = qmax_ref;
+                    if !p.quantity_abs_max.is_zero() {
+                        self.n.exit_fee_basis_checked.fetch_add(1, Ordering::Relaxed);
+                        let share_impl = p.quantity_abs / p.quantity_abs_max * p.fees_enter.fees;
+                        let share_ref = p.quantity_abs / qmax_ref * p.fees_enter.fees;
+                        if (share_impl - share_ref).abs() > tol(p, f) {
+                            out.push((
+                                format!("C15/pro-rata-exit-fee-share/{arm}/quantity-basis-is-not-the-maximum-position-size"),
+                                format!(
+                                    "after fill {sym:?} (net {net0} -> {net1}) the position reports quantity_abs_max = {} but the greatest size it has reached is {qmax_ref}: the estimate charges {share_impl} of the entry fees {} instead of the pro-rata share {share_ref}",
+                                    p.quantity_abs_max, p.fees_enter.fees
+                                ),
+                            ));
+                            // re-synchronise: judge later steps relative to what the implementation holds
+                            mon.qmax = p.quantity_abs_max;
+                        }
+                    }
                     mon.allowed = if opening { vec![Src::ZeroAtOpen, Src::Price(f)] } else { vec![Src::Price(f)] };
+                    // a fill that is not the newest thing the instrument has seen: market data newer
+                    // than the fill may already have arrived, so the estimate at the instrument's
+                    // current price is acceptable too (never a value from before the fill)
+                    if let (true, Some(x)) = (fill_not_newest, price_now) {
+                        mon.allowed.push(Src::Price(x));
+                    }
                     self.n.fill_checked.fetch_add(1, Ordering::Relaxed);
                     let got = p.pnl_unrealised;
                     if opening && got.is_zero() && !close_to(p, got, f) {
@@ -476,7 +586,7 @@ impl SeqModel for M {
                         ));
                     }
                     if !accepts(p, got, &mon.allowed) {
-                        let cause = if price_now.is_some_and(|x| close_to(p, got, x)) {
+                        let cause = if !fill_not_newest && price_now.is_some_and(|x| close_to(p, got, x)) {
                             "estimate-at-market-price-not-fill-price"
                         } else if !opening && Some(got) == before_i {
                             "left-at-previous-value"
@@ -499,6 +609,7 @@ impl SeqModel for M {
                     mon.allowed.clear();
                     mon.net = match other {
                         Some(p) => {
+                            mon.qmax = p.quantity_abs_max;
                             mon.allowed = vec![Src::Observed(p.pnl_unrealised)];
                             if p.side == Side::Buy { p.quantity_abs } else { -p.quantity_abs }
                         }
@@ -571,8 +682,8 @@ impl SeqModel for M {
     }
 
     fn final_hash(&self, s: &St) -> u64 {
-        let mut v = Vec::with_capacity(2);
-        for i in 0..2 {
+        let mut v = Vec::with_capacity(self.driven.len());
+        for i in 0..self.driven.len() {
             let st = s.eng.0.state.instruments.instrument_index(&self.driven[i].0);
             let pos = st.position.current.as_ref().map(|p| {
                 (p.side == Side::Buy, p.quantity_abs, p.quantity_abs_max, p.price_entry_average, p.fees_enter.fees, p.pnl_unrealised)
@@ -586,14 +697,14 @@ impl SeqModel for M {
 pub fn run(ctx: &Ctx) -> Outcome {
     // (alphabet width, max history length)
     let plan: Vec<(Width, usize)> = ctx.tier.pick(
-        vec![(Width::Full, 4), (Width::Narrow, 6)],
-        vec![(Width::Full, 4), (Width::Medium, 5), (Width::Narrow, 7)],
+        vec![(Width::Full, 4), (Width::Narrow, 6), (Width::Trio, 4), (Width::FillTimes, 4)],
+        vec![(Width::Full, 4), (Width::Medium, 5), (Width::Narrow, 7), (Width::Trio, 5), (Width::FillTimes, 5)],
     );
     let mut per_cfg = Vec::new();
     let mut evaluations = 0u64;
     let mut sequences = 0u64;
     let mut distinct = 0usize;
-    let mut totals = [0u64; 6];
+    let mut totals = [0u64; 7];
     for (width, depth) in plan {
         let m = M::new(width);
         let st = seq::run(ctx, &m, m.label(), depth);
@@ -607,6 +718,7 @@ pub fn run(ctx: &Ctx) -> Outcome {
             m.n.other_instrument_checked.load(Ordering::Relaxed),
             m.n.refreshed_to_new_value.load(Ordering::Relaxed),
             m.n.open_fill_zero_where_estimate_nonzero.load(Ordering::Relaxed),
+            m.n.exit_fee_basis_checked.load(Ordering::Relaxed),
         ];
         for (t, x) in totals.iter_mut().zip(c) {
             *t += x;
@@ -615,7 +727,8 @@ pub fn run(ctx: &Ctx) -> Outcome {
             "label": m.label(), "max_len": depth, "sequences": st.sequences, "steps": st.steps,
             "distinct_final_states": st.distinct_final,
             "checks": {"a_priced_new_market_event_with_open_position": c[0], "b_fill_leaving_position_open": c[1],
-                       "c_event_without_new_price_with_open_position": c[2], "d_other_instrument_untouched": c[3]},
+                       "c_event_without_new_price_with_open_position": c[2], "d_other_instrument_untouched": c[3],
+                       "e_exit_fee_basis_is_maximum_size": c[6]},
         }));
     }
     if totals[0] == 0 || totals[1] == 0 || totals[2] == 0 || totals[3] == 0 {
@@ -623,8 +736,10 @@ pub fn run(ctx: &Ctx) -> Outcome {
         std::process::exit(2);
     }
     let samples = vec![
-        json!({"label": "full", "seq": [Sym::Fill{i:0,buy:true,q:0,p:0,f:1}, Sym::Trade{i:0,t:T::Newer,p:1}, Sym::L1{i:0,t:T::Newer,b:1}]}),
-        json!({"label": "full", "seq": [Sym::L1{i:1,t:T::Newer,b:0}, Sym::Fill{i:1,buy:false,q:1,p:1,f:0}, Sym::Trade{i:1,t:T::Older,p:1}]}),
+        json!({"label": "full", "seq": [Sym::Fill{i:0,buy:true,q:0,p:0,f:1,t:T::Newer}, Sym::Trade{i:0,t:T::Newer,p:1}, Sym::L1{i:0,t:T::Newer,b:1}]}),
+        json!({"label": "full", "seq": [Sym::L1{i:1,t:T::Newer,b:0}, Sym::Fill{i:1,buy:false,q:1,p:1,f:0,t:T::Newer}, Sym::Trade{i:1,t:T::Older,p:1}]}),
+        json!({"label": "trio", "seq": [Sym::Fill{i:0,buy:true,q:0,p:0,f:1,t:T::Newer}, Sym::Trade{i:1,t:T::Newer,p:1}, Sym::L1{i:2,t:T::Newer,b:1}]}),
+        json!({"label": "fill-times", "seq": [Sym::Fill{i:0,buy:true,q:1,p:1,f:1,t:T::Newer}, Sym::Trade{i:0,t:T::Newer,p:1}, Sym::Fill{i:0,buy:false,q:0,p:1,f:1,t:T::Older}]}),
     ];
     Outcome {
         level: "exploration",
@@ -633,11 +748,12 @@ pub fn run(ctx: &Ctx) -> Outcome {
             "sequences": sequences,
             "distinct_nontrivial": distinct,
             "exhaustive": true,
-            "rule": "all histories of length <= max_len through Engine::process over {fills, public trades, L1 updates (newer/equal/older timestamps), liquidation, empty L1} x 2 driven instruments (indices 1 and 2 on 2 exchanges); after every event pnl_unrealised of every open position is compared with the documented estimate at the instrument's current price / the fill price (rules a-d)",
+            "rule": "all histories of length <= max_len through Engine::process over {fills, public trades, L1 updates (newer/equal/older timestamps), liquidation, empty L1} x 2 driven instruments (indices 1 and 2 on 2 exchanges; 'trio': all 3 instruments incl. index 0, two of them on one exchange, two of them the same market on different exchanges; 'fill-times': fills stamped newer / equal / older than the greatest timestamp seen); after every event pnl_unrealised of every open position is compared with the documented estimate at the instrument's current price / the fill price (rules a-e)",
             "checks_a_priced_new_market_event": totals[0],
             "checks_b_fill": totals[1],
             "checks_c_event_without_new_price": totals[2],
             "checks_d_other_instrument": totals[3],
+            "checks_e_exit_fee_basis": totals[6],
             "market_events_that_changed_the_estimate": totals[4],
             "noted_open_fill_estimate_is_zero_not_minus_entry_fee": totals[5],
             "per_configuration": per_cfg,
@@ -646,19 +762,17 @@ pub fn run(ctx: &Ctx) -> Outcome {
         assumptions: vec![
             "L1 events carry last_update_time == time_exchange, as every connector constructs them".into(),
             "fills: price > 0, quantity > 0, fee >= 0 in the quote asset, fresh trade ids; market prices are finite positive numbers".into(),
+            "a fill stamped equal to / older than the greatest timestamp its instrument has seen must leave the estimate at the fill price or at the instrument's current price (newer market data may already have arrived); for a fill that is the newest event only the fill price is accepted".into(),
             "the instrument's current price is what the real InstrumentDataState::price() reports after the event (DefaultInstrumentMarketData: L1 volume-weighted mid, else last trade)".into(),
             "a market event 'yields a price' for certain only if it is a trade or two-sided L1 strictly newer (exchange time) than every market event and fill the instrument has seen; for every other market event both 'unchanged' and 'estimate at the current price' are accepted".into(),
+            "the estimate is recomputed from the position's own side, quantity, entry average and entry fees (C02 judges those); the pro-rata basis quantity_abs_max is compared with the maximum |net filled quantity| of the position's life (documented meaning of the field)".into(),
             "a freshly opened position showing pnl_unrealised = 0 although the entry fee is non-zero is reported under its own signature (known finding); the value 0 is kept as the reference for later steps".into(),
         ],
     }
 }
 
 pub fn replay(ctx: &Ctx, case: &Value) {
-    let m = M::new(match case["label"].as_str().unwrap_or("full") {
-        "narrow" => Width::Narrow,
-        "medium" => Width::Medium,
-        _ => Width::Full,
-    });
+    let m = M::from_label(case["label"].as_str().unwrap_or("full"));
     for (sig, detail) in seq::replay(&m, case) {
         ctx.violate(sig, detail, case.clone());
     }
